@@ -323,7 +323,7 @@ def run(ctx):
             raise MachineryError(res.error_trace)
     if ctx.only in (None, 'c2s'):
         wd = str(ctx.tmpdir('c09_'))
-        n = 60 if quick else 800
+        n = 60 if quick else 2000
         dss = [gen_dataset(rng, raw=(i % 5 == 4)) for i in range(n)]
         with cf.ProcessPoolExecutor(max_workers=10) as ex:
             outs = list(ex.map(_case, [(ds, wd) for ds in dss], chunksize=2))
